@@ -41,6 +41,11 @@ type config struct {
 
 var verifDir, repoDir string
 
+// outDir is where evidence/ and replays/ are written: /verif normally, a scratch directory under
+// .work when the driver is self-testing against a patched copy of the repository (VERIF_SELFTEST),
+// so that a self-test never overwrites real evidence.
+var outDir string
+
 func main() {
 	tier := flag.String("tier", os.Getenv("VERIF_TIER"), "quick or thorough")
 	replay := flag.String("replay", "", "replay one saved case")
@@ -82,6 +87,10 @@ func main() {
 		repoDir = "/repo"
 	}
 	os.Setenv("VERIF_DIR", verifDir)
+	outDir = verifDir
+	if os.Getenv("VERIF_SELFTEST") != "" {
+		outDir = filepath.Join(verifDir, ".work", "selftest-out")
+	}
 
 	work := filepath.Join(verifDir, ".work", fmt.Sprintf("%s-%d", id, os.Getpid()))
 	if err := os.MkdirAll(work, 0o755); err != nil {
@@ -425,8 +434,8 @@ func run(id string, cfg config, tier string, seed int64, work string, replayPath
 		if st.Violation != nil {
 			rf := core.ReplayFile{Property: st.Violation.Check, Message: st.Violation.Message, Case: st.Violation.Case}
 			data, _ := json.MarshalIndent(&rf, "", " ")
-			_ = os.MkdirAll(filepath.Join(verifDir, "replays"), 0o755)
-			p := filepath.Join(verifDir, "replays", fmt.Sprintf("%s-%s-seed%d-shard%d.json", id, tier, seed, i))
+			_ = os.MkdirAll(filepath.Join(outDir, "replays"), 0o755)
+			p := filepath.Join(outDir, "replays", fmt.Sprintf("%s-%s-seed%d-shard%d.json", id, tier, seed, i))
 			if err := os.WriteFile(p, data, 0o644); err != nil {
 				inconclusive = fmt.Sprintf("cannot write replay file: %v", err)
 				continue
@@ -527,8 +536,8 @@ func run(id string, cfg config, tier string, seed int64, work string, replayPath
 		"violations":  violations,
 	}
 	evData, _ := json.MarshalIndent(ev, "", " ")
-	_ = os.MkdirAll(filepath.Join(verifDir, "evidence"), 0o755)
-	if err := os.WriteFile(filepath.Join(verifDir, "evidence", id+".json"), append(evData, '\n'), 0o644); err != nil {
+	_ = os.MkdirAll(filepath.Join(outDir, "evidence"), 0o755)
+	if err := os.WriteFile(filepath.Join(outDir, "evidence", id+".json"), append(evData, '\n'), 0o644); err != nil {
 		fmt.Fprintf(os.Stderr, "INCONCLUSIVE: cannot write evidence: %v\n", err)
 		return 2
 	}
@@ -614,7 +623,7 @@ func runFuzz(id, target string, seconds int, work string) (map[string]interface{
 				best, bestSize = e.Name(), fi.Size()
 			}
 		}
-		dst := filepath.Join(verifDir, "replays", best)
+		dst := filepath.Join(outDir, "replays", best)
 		_ = os.MkdirAll(filepath.Dir(dst), 0o755)
 		data, _ := os.ReadFile(filepath.Join(replayDir, best))
 		_ = os.WriteFile(dst, data, 0o644)
